@@ -213,8 +213,8 @@ pub fn random_run(rng: &mut StdRng, n: usize) -> DRunSpec {
             70..=89 => {
                 let e = rng.gen_range(1..=NE);
                 let o = OWNER[e as usize] as usize;
-                // endpoints are announced by participants that are present (SPDP first)
-                if !known[o] {
+                // usually the participant is present (SPDP first); one time in five its SPDP has not been heard yet
+                if !known[o] && rng.gen_range(0..5) != 0 {
                     let l = LEASES[rng.gen_range(0..LEASES.len())];
                     acts.push(DAct::Spdp { p: o as u8, lease: l });
                     known[o] = true;
